@@ -14,7 +14,7 @@ from ..tables import scheduling as TS
 from .C01 import check_literals, mask_root, bound_state_exact
 from ..model import AnalysisError
 
-FLOOR = 118
+FLOOR = 165
 EXPLANATION = (
     "Static comparison normal forms: each constraint comparison reaching a feasibility mask (13 routing env classes, FJSP/JSSP "
     "availability) is matched to its reference literal and must be no tighter than the ground-truth inequality "
